@@ -528,6 +528,139 @@ def _cfg_extract(txt):
     return out
 
 
+def _cfg_blank(txt):
+    """comments and ordinary string / char literals replaced by spaces (same length); strings right after '=' (cfg values) stay"""
+    out = list(txt); i = 0; n = len(txt)
+    while i < n:
+        c = txt[i]
+        if txt.startswith("//", i):
+            j = txt.find("\n", i); j = n if j < 0 else j
+            for k in range(i, j):
+                out[k] = " "
+            i = j
+        elif txt.startswith("/*", i):
+            j = txt.find("*/", i + 2); j = n if j < 0 else j + 2
+            for k in range(i, j):
+                if out[k] != "\n":
+                    out[k] = " "
+            i = j
+        elif c == '"':
+            j = i + 1
+            while j < n and txt[j] != '"':
+                j += 2 if txt[j] == "\\" else 1
+            k0 = i - 1
+            while k0 >= 0 and txt[k0] in " \t":
+                k0 -= 1
+            if not (k0 >= 0 and txt[k0] == "="):
+                for k in range(i + 1, min(j, n)):
+                    if out[k] != "\n":
+                        out[k] = " "
+            i = j + 1
+        elif c == "'" and i + 2 < n and (txt[i + 2] == "'" or (txt[i + 1] == "\\" and txt.find("'", i + 2) in range(i + 2, i + 8))):
+            j = txt.find("'", i + 2)
+            for k in range(i + 1, j):
+                out[k] = " "
+            i = j + 1
+        else:
+            i += 1
+    return "".join(out)
+
+
+def _balanced(txt, i, open_c="(", close_c=")"):
+    depth = 0; n = len(txt)
+    while i < n:
+        c = txt[i]
+        if c == open_c:
+            depth += 1
+        elif c == close_c:
+            depth -= 1
+            if depth == 0:
+                return i + 1
+        i += 1
+    return n
+
+
+def _cfg_regions(txt):
+    """[(predicate, start, end, gated module name or None)] for every outer #[cfg(P)] attribute of (blanked) source text"""
+    out = []
+    for m in re.finditer(r'#\s*\[\s*cfg\s*\(', txt):
+        p0 = m.end() - 1
+        p1 = _balanced(txt, p0)
+        pred = re.sub(r'\s+', ' ', txt[p0 + 1:p1 - 1].strip())
+        j = txt.find("]", p1) + 1
+        while True:
+            mm = re.match(r'\s*#\s*\[', txt[j:])
+            if not mm:
+                break
+            j = _balanced(txt, j + mm.end() - 1, "[", "]")
+        k = j; depth = 0; n = len(txt)
+        while k < n:
+            c = txt[k]
+            if c in "([":
+                depth += 1
+            elif c in ")]":
+                depth -= 1
+            elif depth == 0 and c in "{;,}":
+                break
+            k += 1
+        if k < n and txt[k] == "{":
+            out.append((pred, m.start(), _balanced(txt, k, "{", "}"), None))
+        else:
+            mm = re.search(r'\bmod\s+([A-Za-z_0-9]+)\s*$', txt[j:k])
+            out.append((pred, m.start(), k + 1, mm.group(1) if mm else None))
+    return out
+
+
+def _cfg_effective_predicates():
+    """{effective predicate text: file first seen in}: every cfg predicate of the sources conjoined with the predicates of the
+    cfg-gated items (blocks, impls, modules, `mod name;` files) that enclose it"""
+    src = os.path.join(REPO, "src")
+    files = {}
+    for root, _, fs in os.walk(src):
+        for f in sorted(fs):
+            if f.endswith(".rs"):
+                pth = os.path.join(root, f)
+                files[pth] = _cfg_blank(open(pth, errors="replace").read())
+    regs = {pth: _cfg_regions(t) for pth, t in files.items()}
+    gates = []  # (path prefix, predicate)
+    for pth, rs in regs.items():
+        d, stem = os.path.dirname(pth), os.path.splitext(os.path.basename(pth))[0]
+        base = d if stem in ("lib", "mod", "main") else os.path.join(d, stem)
+        for pred, _, _, modname in rs:
+            if modname:
+                gates.append((os.path.join(base, modname), pred))
+    # gates nest (src/f32.rs gates src/f32/sse2.rs ...): a file inherits the gates of every prefix
+    preds = {}
+    for pth, txt in files.items():
+        noext = os.path.splitext(pth)[0]
+        if os.path.basename(noext) == "mod":
+            noext = os.path.dirname(noext)
+        inherited = [g for pre, g in gates if noext == pre or noext.startswith(pre + os.sep)]
+        for m in re.finditer(r'\bcfg(_attr)?!?\s*\(', txt):
+            p0 = m.end() - 1
+            body = txt[p0 + 1:_balanced(txt, p0) - 1]
+            if m.group(1):
+                dd = 0
+                for k, c in enumerate(body):
+                    if c == "(":
+                        dd += 1
+                    elif c == ")":
+                        dd -= 1
+                    elif c == "," and dd == 0:
+                        body = body[:k]
+                        break
+            own = re.sub(r'\s+', ' ', body.strip())
+            pos = m.start()
+            outer = [r[0] for r in regs[pth] if r[1] < pos - 12 and pos < r[2]]
+            parts = []
+            for q in inherited + outer + [own]:
+                if q not in parts:
+                    parts.append(q)
+            text = parts[0] if len(parts) == 1 else "all(" + ", ".join(parts) + ")"
+            preds.setdefault(text, os.path.relpath(pth, REPO))
+    return preds
+
+
 def _cfg_parse(toks, i=0):
     t = toks[i]
     if t in ("all", "any", "not") and i + 1 < len(toks) and toks[i + 1] == "(":
@@ -602,13 +735,7 @@ def cfg_coverage(used, exempt=()):
     -> (table, extra): table[predicate] = {"true_in": [...], ...}; extra = borrowed + synthesised configuration names."""
     native_rustflags()
     if "preds" not in _cfgcov:
-        preds = {}
-        for root, _, files in os.walk(os.path.join(REPO, "src")):
-            for f in sorted(files):
-                if f.endswith(".rs"):
-                    for b in _cfg_extract(open(os.path.join(root, f), errors="replace").read()):
-                        preds.setdefault(b, os.path.relpath(os.path.join(root, f), REPO))
-        _cfgcov["preds"] = preds
+        _cfgcov["preds"] = _cfg_effective_predicates()
     preds = _cfgcov["preds"]
     exempt = set(exempt)
     registered = [c for c in CONFIGS if c not in ("int-rel", "int-dbg")]
@@ -718,7 +845,8 @@ def cfg_summary(table, extra):
             "configurations_added_to_satisfy_a_predicate": extra,
             "synthesised": {k: v["synthesised"] for k, v in table.items() if "synthesised" in v},
             "true_in_no_configuration": {k: v.get("why", "?") for k, v in table.items() if not v["true_in"]},
-            "limits": "predicates are taken one by one (nested cfg regions are not conjoined); profile-dependent behaviour without a cfg "
+            "limits": "a predicate is conjoined with the predicates of the cfg-gated blocks, impls, modules and `mod name;` files that enclose it "
+                      "(textual nesting; macro-generated gating is not followed); profile-dependent behaviour without a cfg "
                       "(overflow checks) is covered by running the feature variants in both profiles where the property depends on it"}
 
 
